@@ -46,18 +46,6 @@ def run(ctx):
     n_beh = extract(res.output, beh)
     if n_beh == 0:
         raise core.Inconclusive("no behaviours exported by TLC")
-    # optional self-test of the binding (see the report of C09): flip one expected verdict
-    if os.environ.get("VERIF_C09_SELFTEST_CORRUPT"):
-        lines = open(beh).read().splitlines()
-        for i, l in enumerate(lines):
-            b = json.loads(l)
-            st = b["steps"][-1]
-            if b["via"] == "query" and st["kind"] == "INSERT" and st["qc"] == "system" and st["tc"] == "systable":
-                st["disp"] = "local"
-                lines[i] = json.dumps(b)
-                break
-        open(beh, "w").write("\n".join(lines) + "\n")
-
     out = ctx.path("intercept_result.json")
     frac = "1" if thorough else "0.5"
     ctx.drv(["-in", beh, "-out", out, "-e2e", frac, "-workers", str(min(core.NCPU, 8))],
@@ -99,8 +87,25 @@ def run(ctx):
         for kk in keys:
             add(kk, what, g)
         fn_causes[cause] = keys
+    # end-to-end mismatches without a function-level counterpart that cut across many statement
+    # classes have a cause that is independent of the statement (e.g. the connection's keyspace
+    # after a second USE): one key per (operation, submission paths, verdicts)
+    across = {}
     for g in mism:
-        if g["stage"] != "e2e":
+        if g["stage"] == "e2e" and (g["kind"], g["cc"], g["qc"], g["tc"], g["want"], g["got"]) not in fn_causes:
+            across.setdefault((g["op"], ",".join(sorted(g["vias"])), g["want"], g["got"]), []).append(g)
+    collapsed = set()
+    for (op, vias, want, got), gs in sorted(across.items()):
+        if len(gs) > 6:
+            ex = gs[0]["examples"][0]
+            add("dispatch:op=%s,via=%s,want=%s,got=%s,classes=many" % (op, vias, want, got),
+                "end to end (%s): %s of statements of %d classes answered %s where the specification says %s, e.g. %r with "
+                "current keyspace %r (%s)" % (vias, op, len(gs), got, want, ex["text"], ex["ks"], ex.get("detail", "")),
+                {"groups": [{k: g[k] for k in ("op", "kind", "cc", "qc", "tc", "want", "got", "count", "vias")} for g in gs],
+                 "example": ex})
+            collapsed.update(id(g) for g in gs)
+    for g in mism:
+        if g["stage"] != "e2e" or id(g) in collapsed:
             continue
         cause = (g["kind"], g["cc"], g["qc"], g["tc"], g["want"], g["got"])
         ex = g["examples"][0]
@@ -196,6 +201,7 @@ def run(ctx):
     if missing:
         raise core.Inconclusive("classes not exercised: %s" % missing[:10])
     if e2e["noreply"]:
-        raise core.Inconclusive("%d end-to-end steps got no reply (not a C09 verdict): %s" % (e2e["noreply"], e2e["noreply_examples"][:2]))
+        raise core.Inconclusive("%d end-to-end steps got no reply (not a C09 verdict)%s: %s" % (
+            e2e["noreply"], ", run cut short" if e2e.get("aborted") else "", e2e["noreply_examples"][:2]))
     if e2e["token_anomalies"]:
         raise core.Inconclusive("forwarded steps answered without their token: %s" % e2e["token_anomalies"][:2])
